@@ -30,7 +30,7 @@ fn agg(data: &[u8]) -> Result<bool, String> {
    } else {
       body.iter().map(|b| *b as i8 as i64).collect()
    };
-   let xs: Vec<i64> = xs.into_iter().take(300).collect();
+   let xs: Vec<i64> = xs.into_iter().take(6000).collect();
    let raw = u16::from_le_bytes([data[1], data[2]]);
    let p = match (flags >> 1) & 3 {
       0 => 0.0,
